@@ -142,28 +142,27 @@ def run(ctx):
         # search_slice
         k = facts.fn(S + "::search_slice")
         ebk = ExprBuilder(k)
-        sw = cond_switches(k, lambda e: is_call(e, S + "::slice_needs_transcoding"), ebk)
+        asked = k.calls_to(S + "::slice_needs_transcoding")
         cons = [c for c in k.calls() if c.path in (GLUE + "::SliceByLine::new", GLUE + "::MultiLine::new")]
         sr = k.calls_to(S + "::search_reader")
-        if not sw or len(cons) != 2 or not sr:
-            r.bad("search_slice|shape", "anchor-missing: search_slice (guard %d, constructors %d, detour %d)" % (len(sw), len(cons), len(sr)), fn=k)
+        if not asked or len(cons) != 2 or not sr:
+            r.bad("search_slice|shape", "anchor-missing: search_slice (guard %d, constructors %d, detour %d)" % (len(asked), len(cons), len(sr)), fn=k)
         else:
-            e = sw[0][3]
-            same = any(x.k == "arg" and x[2] == "slice" for x in walk(e))
-            esc = guarded(k, [c.bb for c in cons], sw, False)
-            if esc or not same:
+            from ..flow import table
+            execd = {}
+            for row, sx in table(facts, k, calls={"Searcher::slice_needs_transcoding": [I(0), I(1)]}):
+                execd[row[("call", "Searcher::slice_needs_transcoding")][1]] = sx.exec_blocks
+            same = all(any(x.k == "arg" and x[2] == "slice" for x in walk(ebk.operand(c.args[1]))) for c in asked)
+            if any(c.bb in execd[1] for c in cons) or not same:
                 r.bad("search_slice|guard", "a slice strategy is reachable without slice_needs_transcoding(slice) == false", fn=k,
                       construct="guard")
             else:
-                r.ok("search_slice|guard", "both slice strategies only on the false edge of slice_needs_transcoding(slice)", fn=k)
-            if guarded(k, [sr[0].bb], sw, True) or not any(x.k == "arg" and x[2] == "slice" for x in walk(ebk.operand(sr[0].args[2]))):
+                r.ok("search_slice|guard", "both slice strategies only when slice_needs_transcoding(slice) is false", fn=k)
+            if not any(c.bb in execd[1] for c in sr) or any(c.bb in execd[0] for c in sr) or \
+                    not any(x.k == "arg" and x[2] == "slice" for x in walk(ebk.operand(sr[0].args[2]))):
                 r.bad("search_slice|detour", "the needs-transcoding edge does not detour the same slice through search_reader", fn=k)
             else:
-                s = Sccp(k).run([(sw[0][1][1], {})])
-                if any(c.bb in s.exec_blocks for c in cons):
-                    r.bad("search_slice|detour", "after the transcoding detour a raw slice strategy still runs", fn=k)
-                else:
-                    r.ok("search_slice|detour", "needs transcoding ⇒ search_reader(slice) and return", fn=k)
+                r.ok("search_slice|detour", "needs transcoding ⇒ search_reader(slice), and no slice strategy", fn=k)
         for name in ("search_path", "search_file"):
             p = facts.fn(S + "::" + name)
             if p.calls_to(S + "::search_file_maybe_path") and not [c for c in p.calls() if c.path.startswith(GLUE)]:
@@ -276,22 +275,28 @@ def run(ctx):
 def needs_rule(ctx, r):
     facts = ctx.facts
     f = facts.fn(S + "::slice_needs_transcoding")
-    tail = H.tail_expr(f.hir)
-    atoms = ["self.config.encoding.is_some()", "self.config.bom_sniffing",
-             "grep_searcher::searcher::slice_has_bom(slice)"]
-    ok, detail = H.equivalent(tail, atoms, lambda v: v[atoms[0]] or (v[atoms[1]] and v[atoms[2]]))
-    if ok:
-        r.ok("truth", "≡ encoding.is_some() ∨ (bom_sniffing ∧ slice_has_bom(slice)) (%s)" % detail, fn=f)
+    from ..flow import table, ret_set
+    CFGADT = "grep_searcher::searcher::Config"
+    wrong = []
+    for row, sx in table(facts, f, fields={(CFGADT, "encoding"): [V("None", None), V("Some", None)], (CFGADT, "bom_sniffing"): [I(0), I(1)]},
+                         calls={"searcher::slice_has_bom": [I(0), I(1)]}):
+        enc = row[("field", (CFGADT, "encoding"))][1] == "Some"
+        sniff, bom = row[("field", (CFGADT, "bom_sniffing"))][1], row[("call", "searcher::slice_has_bom")][1]
+        want = I(int(enc or (sniff and bom)))
+        if ret_set(sx) != {want}:
+            wrong.append("encoding=%s bom_sniffing=%d has_bom=%d ⇒ %s" % ("Some" if enc else "None", sniff, bom, sorted(map(str, ret_set(sx)))))
+    if not wrong:
+        r.ok("truth", "≡ encoding.is_some() ∨ (bom_sniffing ∧ slice_has_bom(slice)) (8 rows)", fn=f)
     else:
-        r.bad("truth", "slice_needs_transcoding: %s" % detail, fn=f, construct="needs")
+        r.bad("truth", "slice_needs_transcoding: %s" % "; ".join(wrong)[:200], fn=f, construct="needs")
     g = facts.fn("grep_searcher::searcher::slice_has_bom")
-    arrs = [x for x in H.find(g.hir, lambda x: x.get("k") == "array" and "exp" not in x and
-                              all(H.strip(y).get("k") == "path" for y in x.get("xs", [])))]
+    arrs = [x for u in facts.with_closures(g.path) for x in H.find(u.hir, lambda x: x.get("k") == "array" and "exp" not in x and
+                                                                   all(H.strip(y).get("k") == "path" for y in x.get("xs", [])))]
     names = set()
     for a in arrs:
         for x in a["xs"]:
             names.add(H.canon(x).split("::")[-1])
-    fb = g.calls_to("encoding_rs::Encoding::for_bom")
+    fb = [c for u in facts.with_closures(g.path) for c in u.calls_to("encoding_rs::Encoding::for_bom")]
     if names == {"UTF_16LE", "UTF_16BE", "UTF_8"} and fb:
         r.ok("bom-set", "BOM encodings = %s via Encoding::for_bom" % sorted(names), fn=g)
     else:
